@@ -14,10 +14,10 @@ for f in glob.glob(d + "/cases_*.v"):
     if m:
         hdr = s[:s.index("Definition cases")].replace("Gen CaseLib", "Eval Gen CaseLib")
         open(d + "/one.v", "w").write(hdr + "\nDefinition c : conv_case := " + m.group(0) + """.
-Definition tab := generate (k_env c) (k_common c) (k_out c) (k_methods c).
+Definition tab := case_generate c.
 Eval vm_compute in (k_outcome c, match tab with GOk t => Some (map (fun m => (g_name m, g_src m, g_tgt m, g_body m)) t) | _ => None end, match tab with GDiag x => x | _ => 0 end).
 Eval vm_compute in check_case c.
-Eval vm_compute in match tab with GOk t => map (fun r => (r_method r, r_src r, run (k_env c) t RUN_FUEL (r_method r) (r_src r) (r_n0 r), r_out r, shared_paths (r_n0 r) EQ_FUEL (match run (k_env c) t RUN_FUEL (r_method r) (r_src r) (r_n0 r) with Done (v, _) => v | _ => VNil end) [], r_shared r)) (k_runs c) | _ => [] end.
+Eval vm_compute in match tab with GOk t => map (fun r => (r_method r, r_src r, r_ctx r, Eval.run (k_env c) t (case_ftable c) RUN_FUEL (r_method r) (r_ctx r) (r_src r) (r_n0 r), r_out r, r_err r, check_run (k_env c) t (case_ftable c) r)) (k_runs c) | _ => [] end.
 """)
 for line in open(d + "/cases.jsonl"):
     if line.startswith('{"id":%s,' % cid):
